@@ -122,6 +122,8 @@ def render_tu(tu, keep=None, keep_env=None):
             emit(render_decl(d), ("decl", d["id"]))
     for h in tu["hosts"]:
         mine = [d for d in decls if d["site"] == h["id"]]
+        if h.get("pre"):
+            emit(h["pre"], ("host", h["id"]))
         emit(h["open"], ("host", h["id"]))
         for n in h.get("nested", []):
             emit("  " + n, ("host", h["id"]))
@@ -130,7 +132,9 @@ def render_tu(tu, keep=None, keep_env=None):
             emit("  " + render_decl(d), ("decl", d["id"]))
         emit(h["close"], ("host", h["id"]))
         # classes inside namespaces are only exported when a global entity refers to them
-        emit("void vf_use_" + h["id"] + "(" + h["qual"] + " *a0);", ("host", h["id"]))
+        if h.get("post"):
+            emit(h["post"], ("host", h["id"]))
+        emit("void vf_use_" + h["id"] + "(" + h.get("anchor", h["qual"]) + " *a0);", ("host", h["id"]))
     for u in tu.get("late_env", []):
         if keep_env is None or u["id"] in keep_env:
             emit(u["text"], ("env", u["id"]))
@@ -176,7 +180,7 @@ def struct_str(t):
     if k == "rref":
         return "rref(" + struct_str(t[1]) + ")"
     if k == "arr":
-        return "array(" + struct_str(t[2]) + ")"
+        return ("array(" if isinstance(t[1], int) else "array[tparam](") + struct_str(t[2]) + ")"
     if k == "memptr":
         return ((t[2] + " ") if t[2] else "") + "memptr(" + struct_str(t[3]) + ")"
     if k == "fn":
@@ -237,7 +241,7 @@ def layers_of(t, acc=None):
         acc.add(k + ">" + head(t[1]))
         layers_of(t[1], acc)
     elif k == "arr":
-        acc.add("arr>" + head(t[2]))
+        acc.add(("arr>" if isinstance(t[1], int) else "arr[tparam]>") + head(t[2]))
         layers_of(t[2], acc)
     elif k == "memptr":
         acc.add("memptr>" + head(t[3]))
@@ -477,10 +481,15 @@ class Scope:
             return self.types[name], "local"
         if name in self.usings:
             return self.usings[name], "usingdecl"
-        for b in self.bases:
+        for bi, b in enumerate(self.bases):
             r = b.find_local(name, seen)
             if r:
-                return r[0], ("injected-base" if r[1] == "injected" else "base")
+                if r[1] == "injected":
+                    return r[0], "injected-base"
+                if len(self.bases) == 1:
+                    return r[0], "base"
+                pos = "first" if bi == 0 else ("last" if bi == len(self.bases) - 1 else "middle")
+                return r[0], "mbase-" + pos
         for dscope in self.dirs:
             r = dscope.find_local(name, seen)
             if r:
@@ -588,6 +597,20 @@ class Universe:
         self.add(g, "GE", "enum")
         self.add(g, "GEC", "eclass")
         self.line("enum", "enum GE { ge1 }; enum class GEC : short { c1 };")
+        ML = self.add(g, "MLinked", "class")
+        self.mi_names = [self.add(ML.inner, "MTag", "typedef"), self.add(ML.inner, "MNode", "class"),
+                         self.add(ML.inner, "MMode", "enum")]
+        MC = self.add(g, "MCounted", "class")
+        MN = self.add(g, "MNamed", "class")
+        self.mi_names.append(self.add(MN.inner, "MLabel", "typedef"))
+        self.mi_bases = (ML, MC, MN)
+        self.line("multiple-inheritance-bases",
+                  "struct MLinked { typedef double MTag; struct MNode { MNode *next; }; enum MMode { mm_fast, mm_slow }; }; "
+                  "struct MCounted { int count; }; struct MNamed { typedef const char *MLabel; };")
+        # same-named types in the enclosing scope for two of the four names
+        self.add(g, "MTag", "typedef")
+        self.add(g, "MNode", "class")
+        self.line("shadowed-outer-names", "typedef int MTag; struct MNode { int id; };")
         if r.random() < 0.7:
             D1 = self.add(na, "D1", "class")
             D1.inner.bases.append(S.inner)
@@ -727,6 +750,9 @@ class DeclGen:
             return ["base", b, self.cv(), west, "", "int" if b == "int" else "builtin"]
         atoms = self.u.atoms
         a = r.choice(atoms)
+        if getattr(self, "force_atoms", None) and r.random() < 0.75:
+            fa = r.choice(self.force_atoms)
+            return ["base", fa.name, self.cv(0.2), west, "", fa.kind_desc() + "/unq-" + (lookup(site, fa.name) or (None, "none"))[1]]
         if a.kind in ("tmpl", "tmplint", "tmplnest", "tmplalias"):
             sp, desc = self.u.spell(a, site)
             lo, hi = a.nparams
@@ -848,6 +874,115 @@ class DeclGen:
         self.host_scopes[h["id"]] = sc
         return h
 
+    def new_mi_host(self, k, shape):
+        """host deriving from several classes; the nested names come from a base at the given position"""
+        u = self.u
+        ML, MC, MN = u.mi_bases
+        order = {"single": [ML], "first": [ML, MC], "last": [MC, ML], "three": [MC, MN, ML],
+                 "three-first": [ML, MN, MC]}[shape]
+        where = self.rng.choice([u.glob, u.glob, u.na])
+        name = f"H{k}"
+        a = u.add(where, name, "class")
+        u.atoms.remove(a)
+        for b in order:
+            a.inner.bases.append(b.inner)
+        p = where.path()
+        acc = self.rng.choice(["", "public "])
+        opn = "".join(f"namespace {x} {{ " for x in p) + f"struct {name} : " + ", ".join(acc + b.name for b in order) + " {"
+        h = {"id": f"h{k}", "open": opn, "close": "};" + " }" * len(p), "qual": "::".join(p + [name]), "nested": [],
+             "mi": shape}
+        self.hosts.append(h)
+        self.host_scopes[h["id"]] = a.inner
+        return h
+
+    def new_mi_decl(self, site_id):
+        """plain uses of the names inherited from the bases (kept simple so that nothing else can fail)"""
+        r = self.rng
+        site = self.host_scopes[site_id]
+        names = [a for a in self.u.mi_names if (lookup(site, a.name) or (None, ""))[1].startswith(("base", "mbase"))]
+        self.nid += 1
+        k = self.nid
+
+        def ty():
+            a = r.choice(names)
+            b = ["base", a.name, "", True, "", a.kind_desc() + "/unq-" + lookup(site, a.name)[1]]
+            sh = r.choice(["v", "v", "p", "cr", "cp", "pcp"])
+            if sh == "v":
+                return b
+            if sh == "p":
+                return ["ptr", "", b]
+            cb = ["base", a.name, "const", r.random() < 0.5, "", b[5]]
+            if sh == "cr":
+                return ["lref", cb]
+            if sh == "cp":
+                return ["ptr", "", cb]
+            return ["ptr", "", ["ptr", "const", b]]
+        kind = r.choice(["method", "method", "method", "smethod", "member"])
+        if kind == "member":
+            d = {"id": k, "name": f"dm_{k}", "kind": kind, "site": site_id, "type": ty()}
+        else:
+            d = {"id": k, "name": ("m" if kind == "method" else "sm") + f"_{k}", "kind": kind, "site": site_id,
+                 "ret": ty() if r.random() < 0.6 else list(VOID), "params": [ty() for _ in range(r.choice([0, 1, 1, 2]))],
+                 "pnames": r.random() < 0.8, "cvq": ("const" if kind == "method" and r.random() < 0.3 else ""), "virtual": False}
+            if d["ret"] == VOID and not d["params"]:
+                d["params"] = [ty()]
+        self.decls.append(d)
+        return d
+
+    def new_tparam_host(self, k):
+        """class template whose member arrays are bounded by a non-type template parameter (element types do not
+        depend on template parameters), used through a typedef / alias of one instantiation"""
+        r = self.rng
+        u = self.u
+        name = f"TB{k}"
+        a = u.add(u.glob, name, "class")
+        u.atoms.remove(a)
+        arg = r.choice(["16", "5", "1+2", "(4-1)", f"VK{k}", f"VK{k}+1"])
+        alias = f"TBI{k}"
+        post = (f"typedef {name}<{arg}> {alias};" if r.random() < 0.5 else f"using {alias} = {name}<{arg}>;")
+        h = {"id": f"h{k}", "pre": f"enum {{ VK{k} = 6 }};", "open": f"template<int K> struct {name} {{", "close": "};",
+             "qual": f"{name}<{arg}>", "anchor": alias, "post": post, "nested": [], "tparam": True}
+        self.hosts.append(h)
+        self.host_scopes[h["id"]] = a.inner
+        return h
+
+    def kbound_type(self, ctx):
+        """array types whose bound is the template parameter K; non-dependent element types"""
+        r = self.rng
+        el = r.choice([["base", "char", "", True, "", "builtin"], list(INT), ["base", "unsigned short", "const", True, "", "builtin"],
+                       ["base", "G", "", True, "", "class/qual"], ["ptr", "const", ["base", "char", "const", True, "", "builtin"]]])
+        shape = r.choice(["a1", "a2", "a2b", "pa"] if ctx == "member" else ["pa", "ra", "a1p", "a2p", "pa"])
+        if shape == "a1":
+            return ["arr", "K", el]
+        if shape == "a2":
+            return ["arr", "K", ["arr", 4, el]]
+        if shape == "a2b":
+            return ["arr", 3, ["arr", "K", el]]
+        if shape == "pa":
+            return ["ptr", "", ["arr", "K", el]]
+        if shape == "ra":
+            return ["lref", ["arr", "K", el]]
+        if shape == "a1p":
+            return ["arr", "K", el]
+        return ["arr", "K", ["arr", 4, el]]
+
+    def new_tparam_decl(self, site_id):
+        r = self.rng
+        self.nid += 1
+        k = self.nid
+        kind = r.choice(["member", "member", "method", "method", "smethod"])
+        if kind == "member":
+            d = {"id": k, "name": f"dm_{k}", "kind": kind, "site": site_id, "type": self.kbound_type("member")}
+        else:
+            ret = r.choice(["void", "pa", "ra"])
+            rt = list(VOID) if ret == "void" else (["ptr", "", ["arr", "K", list(INT)]] if ret == "pa" else
+                                                   ["lref", ["arr", "K", ["base", "char", "const", True, "", "builtin"]]])
+            d = {"id": k, "name": ("m" if kind == "method" else "sm") + f"_{k}", "kind": kind, "site": site_id, "ret": rt,
+                 "params": [self.kbound_type("param") for _ in range(r.choice([0, 0, 1]) if ret != "void" else 1)],
+                 "pnames": r.random() < 0.8, "cvq": ("const" if kind == "method" and r.random() < 0.3 else ""), "virtual": False}
+        self.decls.append(d)
+        return d
+
     def new_decl(self, site_id, early=False):
         r = self.rng
         self.nid += 1
@@ -888,6 +1023,17 @@ class DeclGen:
         for p in picks:
             if p != "global":
                 self.new_decl(p)
+        # always present: multiple inheritance with names from a non-last base (+ controls), and a class template
+        # whose array bounds are a non-type template parameter
+        k = len(self.hosts)
+        shapes = ["first", self.rng.choice(["three", "three-first"]), self.rng.choice(["single", "last"])]
+        for j, shape in enumerate(shapes):
+            h = self.new_mi_host(k + j, shape)
+            for _ in range(3):
+                self.new_mi_decl(h["id"])
+        h = self.new_tparam_host(k + len(shapes))
+        for _ in range(5):
+            self.new_tparam_decl(h["id"])
         self.u.apply_late()
         for _ in range(n_glob - n_early):
             self.new_decl("global")
